@@ -27,26 +27,19 @@ Proof. exact relu_subgradient_at_0. Qed.
 Goal True. idtac "ASSUMPTIONS relu_kink". Abort.
 Print Assumptions relu_kink.
 
-(* leaky_relu for slopes s <= 1 (the forward is max(s*x, x)) *)
+(* leaky_relu, any slope s (forward where(x > 0, x, s*x)) *)
 Theorem leaky_relu_vjp :
-  forall x s g, s <= 1 -> x <> 0 -> is_derive (fun t => wrap_leaky_relu_out t s) x (wrap_leaky_relu_grad_x 1 x s) /\ wrap_leaky_relu_grad_x g x s = g * wrap_leaky_relu_grad_x 1 x s.
-Proof. exact (fun x s g Hs Hx => conj (leaky_relu_derive x s Hs Hx) (leaky_relu_linear g x s)). Qed.
+  forall x s g, x <> 0 -> is_derive (fun t => wrap_leaky_relu_out t s) x (wrap_leaky_relu_grad_x 1 x s) /\ wrap_leaky_relu_grad_x g x s = g * wrap_leaky_relu_grad_x 1 x s.
+Proof. exact (fun x s g Hx => conj (leaky_relu_derive x s Hx) (leaky_relu_linear g x s)). Qed.
 Goal True. idtac "ASSUMPTIONS leaky_relu_vjp". Abort.
 Print Assumptions leaky_relu_vjp.
 
 (* at 0 the kernel returns s, one of the one-sided derivatives s and 1 *)
 Theorem leaky_relu_kink :
-  forall s, s <= 1 -> one_sided_at_0 (fun t => wrap_leaky_relu_out t s) s 1 /\ between s 1 (wrap_leaky_relu_grad_x 1 0 s).
+  forall s, one_sided_at_0 (fun t => wrap_leaky_relu_out t s) s 1 /\ between s 1 (wrap_leaky_relu_grad_x 1 0 s).
 Proof. exact leaky_relu_subgradient_at_0. Qed.
 Goal True. idtac "ASSUMPTIONS leaky_relu_kink". Abort.
 Print Assumptions leaky_relu_kink.
-
-(* NOT covered by leaky_relu_vjp, and false there: for a slope > 1 the computed forward max(s*x, x) has derivative s on the positive side while the backward kernel returns 1 (F.leaky_relu accepts any slope) *)
-Theorem leaky_relu_slope_above_1_refuted :
-  exists x s, 1 < s /\ x <> 0 /\ is_derive (fun t => wrap_leaky_relu_out t s) x 2 /\ wrap_leaky_relu_grad_x 1 x s = 1.
-Proof. exact leaky_relu_slope_gt_1_refuted. Qed.
-Goal True. idtac "ASSUMPTIONS leaky_relu_slope_above_1_refuted". Abort.
-Print Assumptions leaky_relu_slope_above_1_refuted.
 
 (* selu with the constants F.selu passes (wrap_selu_alpha, wrap_selu_scale) *)
 Theorem selu_vjp :
@@ -221,11 +214,11 @@ Proof. exact (fun x g v Lg Lv => lift_kernel wrap_sigmoid_out wrap_sigmoid_grad_
 Goal True. idtac "ASSUMPTIONS sigmoid_tensor_vjp". Abort.
 Print Assumptions sigmoid_tensor_vjp.
 
-(* leaky_relu with a fixed slope s <= 1 *)
+(* leaky_relu with a fixed slope s *)
 Theorem leaky_relu_tensor_vjp :
-  forall s, s <= 1 -> forall x g v, length g = length x -> length v = length x -> List.Forall (fun xi => xi <> 0) x ->
+  forall s x g v, length g = length x -> length v = length x -> List.Forall (fun xi => xi <> 0) x ->
     is_derive (fun t => dot g (map (fun a => wrap_leaky_relu_out a s) (axpy t v x))) 0 (dot (map2 (fun g a => wrap_leaky_relu_grad_x g a s) g x) v).
-Proof. exact (fun s Hs => lift_kernel (fun a => wrap_leaky_relu_out a s) (fun g a => wrap_leaky_relu_grad_x g a s) (fun xi => xi <> 0) (fun x Hx => leaky_relu_derive x s Hs Hx) (fun g x => leaky_relu_linear g x s)). Qed.
+Proof. exact (fun s => lift_kernel (fun a => wrap_leaky_relu_out a s) (fun g a => wrap_leaky_relu_grad_x g a s) (fun xi => xi <> 0) (fun x Hx => leaky_relu_derive x s Hx) (fun g x => leaky_relu_linear g x s)). Qed.
 Goal True. idtac "ASSUMPTIONS leaky_relu_tensor_vjp". Abort.
 Print Assumptions leaky_relu_tensor_vjp.
 
@@ -239,7 +232,7 @@ Print Assumptions mse_tensor_vjp_pred.
 
 (* non-vacuity *)
 Example relu_example : wrap_relu_grad_x 3 2 = 3 /\ wrap_relu_grad_x 3 (-2) = 0.
-Proof. unfold wrap_relu_grad_x, relu_backward. rewrite ind_gt_true, ind_gt_false by lra. split; ring. Qed.
+Proof. unfold wrap_relu_grad_x, relu_backward. split; ind_simpl; ring. Qed.
 Example bce_clamp_example : wrap_binary_cross_entropy_out 0 1 = 100.
 Proof.
   rewrite bce_forward_shape. rewrite ind_eq_true, where_1. reflexivity.
